@@ -201,10 +201,14 @@ class MeiParser(object):
         else:  # the informatio is encoded in a parent scoredef
             found_ancestor_with_metrical_info = False
             for anc in staffdef_el.iterancestors(tag=self._ns_name("scoreDef")):
-                if anc.get("meter.count") is not None:
+                anc_metersig_el = anc.find(self._ns_name("meterSig"))
+                if anc_metersig_el is not None or anc.get("meter.count") is not None:
                     found_ancestor_with_metrical_info = True
                     break
-            if found_ancestor_with_metrical_info:
+            if found_ancestor_with_metrical_info and anc_metersig_el is not None:
+                numerator = int(anc_metersig_el.attrib["count"])
+                denominator = int(anc_metersig_el.attrib["unit"])
+            elif found_ancestor_with_metrical_info:
                 numerator = int(anc.attrib["meter.count"])
                 denominator = int(anc.attrib["meter.unit"])
             else:
@@ -243,10 +247,16 @@ class MeiParser(object):
         else:  # the information is encoded in a parent scoredef
             found_ancestor_with_key_info = False
             for anc in staffdef_el.iterancestors(tag=self._ns_name("scoreDef")):
-                if anc.get("key.sig") is not None:
+                anc_keysig_el = anc.find(self._ns_name("keySig"))
+                if anc_keysig_el is not None or anc.get("key.sig") is not None:
                     found_ancestor_with_key_info = True
                     break
-            if found_ancestor_with_key_info:
+            if found_ancestor_with_key_info and anc_keysig_el is not None:
+                sig = anc_keysig_el.attrib["sig"]
+                # now extract partitura keysig parameters
+                fifths = self._mei_sig_to_fifths(sig)
+                mode = anc_keysig_el.get("mode")
+            elif found_ancestor_with_key_info:
                 sig = anc.attrib["key.sig"]
                 # now extract partitura keysig parameters
                 fifths = self._mei_sig_to_fifths(sig)
